@@ -20,7 +20,15 @@ Evs(js) == [i \in 1..Len(js) |-> [t |-> js[i].t, x |-> js[i].x,
 Same(a, b) == Len(a) = Len(b) /\ \A i \in 1..Len(a) :
                 /\ a[i].t = b[i].t /\ a[i].x = b[i].x /\ Len(a[i].e) = Len(b[i].e)
                 /\ \A j \in 1..Len(a[i].e) : a[i].e[j] = b[i].e[j]
-ObsIs(o) == Same(Evs(o.con), last'.exp.con) /\ Same(Evs(o.nexus), last'.exp.nexus)
+\* events for a (type, xid) the spec leaves open in this step (exp.free) are not compared
+Constrained(evs, fr) ==
+  LET F[i \in 0..Len(evs)] ==
+        IF i = 0 THEN <<>>
+        ELSE IF \E j \in 1..Len(fr) : fr[j].t = evs[i].t /\ fr[j].x = evs[i].x THEN F[i - 1]
+             ELSE Append(F[i - 1], evs[i])
+  IN F[Len(evs)]
+ObsIs(o) == /\ Same(Constrained(Evs(o.con), last'.exp.free), last'.exp.con)
+            /\ Same(Constrained(Evs(o.nexus), last'.exp.free), last'.exp.nexus)
 
 TrPart == IsEvent("Part") /\ Part(Ev.args.k, Ev.args.more, Ev.args.n, Ev.args.raw) /\ Ev.wf /\ ObsIs(Ev.obs)
 TrOther == IsEvent("Other") /\ Other(Ev.args.kind) /\ Ev.wf /\ ObsIs(Ev.obs)
